@@ -14,7 +14,7 @@ pub fn mon() -> Mon {
         run,
         finish,
         replay,
-        rule: "Seeded random histories (length 1-300 over two or three independent contexts interleaved; one in 40 is a single-context history of 300-800 operations), drawn from: Set Endpoint ID requests (Set / Force, EID 0x01-0xFE), Set-Discovered-Flag, Get Endpoint ID, the other identity queries, control responses (including Set Endpoint ID responses carrying an EID), PCI/IANA/SPDM/secured messages, PEC- and header-corrupted and truncated Set Endpoint ID requests, decode-only calls on all of those, set_eid on either half, get_length, Reset/reserved Set-EID operations, unsupported requests and random garbage; plus all sequences of length <= 4 over a 9-letter alphabet of those operation kinds, plus 'observe - N mutations - observe' histories for every N in 1..600 and five mutator kinds (assignments, accessor writes, mixtures) with no other observation in between. After EVERY step both EID accessors are compared with a sequential model (two cells, assigned by accepted Set/Force requests and by accessor writes), and Set/Get Endpoint ID responses are compared with the model (Success + accepted + new EID; completion code 2 for Set-Discovered-Flag; current EID in Get Endpoint ID). A sample of histories is logged as JSONL and re-checked by an independent Python model. Non-trivial = a history in which at least one assignment and one non-assigning operation occurred; distinct = distinct histories (hash of all operations).",
+        rule: "Seeded random histories (length 1-300 over two or three independent contexts interleaved; one in 40 is a single-context history of 300-800 operations), drawn from: Set Endpoint ID requests (Set / Force, EID 0x01-0xFE), Set-Discovered-Flag, Get Endpoint ID, the other identity queries, control responses (including Set Endpoint ID responses carrying an EID), PCI/IANA/SPDM/secured messages, PEC- and header-corrupted and truncated Set Endpoint ID requests, decode-only calls on all of those, set_eid on either half, get_length, Reset/reserved Set-EID operations, unsupported requests and random garbage; plus all sequences of length <= 4 over a 9-letter alphabet of those operation kinds, plus 'observe - N mutations - observe' histories for every N in 1..600 (and N = 65535, 65536, 65537 for the two pure mutators) and five mutator kinds (assignments, accessor writes, mixtures) with no other observation in between. After EVERY step both EID accessors are compared with a sequential model (two cells, assigned by accepted Set/Force requests and by accessor writes), and Set/Get Endpoint ID responses are compared with the model (Success + accepted + new EID; completion code 2 for Set-Discovered-Flag; current EID in Get Endpoint ID). A sample of histories is logged as JSONL and re-checked by an independent Python model. Non-trivial = a history in which at least one assignment and one non-assigning operation occurred; distinct = distinct histories (hash of all operations).",
         assumptions: &[
             "EID values 0x00 and 0xFF in Set Endpoint ID requests are outside the quantifier and not generated",
             "an accessor write changes the half it is called on; responses report the response half (the statement's 'value since stored directly through an accessor')",
@@ -85,7 +85,16 @@ pub fn run_history(h: &History, letters: Option<&[Letter]>, owned: &Owned, prop_
                 }
             };
             let others_before: Vec<(u8, u8)> = ctxs.iter().map(|c| crate::libapi::eids(c)).collect();
-            let obs = exec(&mut ctxs[ci], op, 64 + (i * 37 + 11) % 200, prop_tag ^ i as u64);
+            // response buffer: 64..263 bytes; one step in five gets a buffer that fits the expected
+            // response exactly (12 + data bytes), which is all a caller that knows the answer's size
+            // needs to provide
+            let mut rblen = 64 + (i * 37 + 11) % 200;
+            if i % 5 == 2 {
+                if let Some(Expect::Respond { data, exact: true, .. }) = &exp {
+                    rblen = 12 + data.len();
+                }
+            }
+            let obs = exec(&mut ctxs[ci], op, rblen, prop_tag ^ i as u64);
             rep.eval();
             if let Some(id) = trace_id {
                 let (opk, inp) = match op {
@@ -227,7 +236,9 @@ fn run(cfg: &RunCfg) -> Report {
         let mut idx = 0u64;
         let mut nh = 0u64;
         for mutator in 0..5u8 {
-            for n in 1..=600usize {
+            // every N up to 600, and the wrap points of a 16-bit counter for the two pure mutators
+            let ns_list: Vec<usize> = if mutator <= 1 { (1..=600).chain([65_535usize, 65_536, 65_537]).collect() } else { (1..=600).collect() };
+            for n in ns_list {
                 idx += 1;
                 if idx % ns != sh {
                     continue;
@@ -314,7 +325,7 @@ fn finish(rep: &mut Report, cfg: &RunCfg) {
         return;
     }
     floor(rep, cfg, 5_000);
-    if rep.classes.get("observe-N-mutations-observe-histories").copied().unwrap_or(0) == 3000 {
+    if rep.classes.get("observe-N-mutations-observe-histories").copied().unwrap_or(0) == 3006 {
         rep.exhaustive_spaces.push("every number N in 1..=600 of state changes between two observations of the EID, for 5 mutator kinds".into());
     } else {
         rep.inconclusive.push("observe-N-mutations-observe sweep incomplete".into());
